@@ -194,7 +194,7 @@ def churn_shard(shard, nshards, seed, tier, exe, nhist):
             cid = "%d.%d.%d" % (shard, rnd, i)
             cases.append((cid, cmds))
             meta[cid] = (plan, uni)
-        results, crashes = core.run_script(exe, cases, env=env, tag="c06", timeout=300 if tier == "quick" else 3000)
+        results, crashes = core.run_script(exe, cases, env=dict(env, **core.ambient_env(sh, shard)), tag="c06", timeout=300 if tier == "quick" else 3000)
         cmdmap = dict(cases)
         for cr in crashes:
             kind, frame = cr.summary()
